@@ -229,6 +229,7 @@ int main(int argc, char ** argv) {
             }
             if ((v & 0xfffff) == 0 && mc_deadline_hit()) break;
             mc_executed++;
+            mc_idx = v - lo + 1;          /* progress indicator for the watchdog */
         }
         n_nontrivial = mc_executed; mc_idx = hi - lo;
         if (mc_shard == 0) mc_sample("format -> lex -> SCPI_ParamToInt32/UInt32 for %s 32-bit value, signed decimal and unsigned in bases 2, 8, 10, 16", mc_thorough ? "every" : "one of every 64-value stratum of the");
